@@ -27,7 +27,7 @@ map: `A: Actor` => `A: ActorSig`
 @*/
 
 // The value of a `Cow` (spec-level deref of `Cow` is not available in Verus).
-spec fn cv<'a, T: Clone>(c: std::borrow::Cow<'a, T>) -> T {
+pub open spec fn cv<'a, T: Clone>(c: std::borrow::Cow<'a, T>) -> T {
     match c { std::borrow::Cow::Borrowed(b) => *b, std::borrow::Cow::Owned(o) => o }
 }
 
@@ -115,16 +115,28 @@ spec fn clone_eq<T: Clone>() -> bool {
     &&& forall|a: T, b: T| #[trigger] cloned::<T>(a, b) ==> a == b
 }
 
+// TRUSTED: `impl Deref for Cow` (std::borrow::Cow): "match *self { Borrowed(borrowed) => borrowed,
+// Owned(ref owned) => owned.borrow() }". The std impl is for `B: ?Sized + ToOwned`, for which the
+// owned form cannot be named in a Verus spec; the target is therefore an uninterpreted function, and
+// the axiom below fixes it for the `T: Clone` instances (blanket `impl<T: Clone> ToOwned for T`, whose
+// `Owned = T` and whose `borrow` is the identity).
+pub uninterp spec fn cow_deref_spec<'a, 'b, B: ?Sized + std::borrow::ToOwned>(c: &'b std::borrow::Cow<'a, B>) -> &'b B;
+pub assume_specification<'a, 'b, B: ?Sized + std::borrow::ToOwned>[<std::borrow::Cow<'a, B> as core::ops::Deref>::deref](c: &'b std::borrow::Cow<'a, B>) -> (r: &'b B)
+    ensures r == cow_deref_spec(c);
+pub broadcast axiom fn axiom_cow_deref_clone<'a, T: Clone>(c: &std::borrow::Cow<'a, T>)
+    ensures #[trigger] *cow_deref_spec(c) == cv(*c);
+
 // TRUSTED: `Cow::to_mut` (std::borrow::Cow): "Acquires a mutable reference to the owned form of the
-// data. Clones the data if it is not already owned." After the borrow ends the `Cow` is
-// `Owned(v)` with `v` the final value behind the returned reference; the reference starts at the
-// value of the `Cow` (A-CLONE: a clone equals its original). Rule COW_TO_MUT redirects
-// `x.to_mut()` here because the std signature (`B: ?Sized + ToOwned`) cannot be given an
-// `assume_specification` that mentions `cv`.
-#[verifier::external_body] fn cow_to_mut<'a, 'b, T: Clone>(c: &'b mut std::borrow::Cow<'a, T>) -> (r: &'b mut T)
+// data. Clones the data if it is not already owned." After the borrow ends the `Cow` is `Owned(v)`
+// with `v` the final value behind the returned reference; the reference starts at the owned form of
+// the `Cow`, which for `T: Clone` is its value (A-CLONE: a clone equals its original).
+pub uninterp spec fn cow_owned_spec<'a, B: ?Sized + std::borrow::ToOwned>(c: std::borrow::Cow<'a, B>) -> <B as std::borrow::ToOwned>::Owned;
+pub assume_specification<'a, 'b, B: ?Sized + std::borrow::ToOwned>[std::borrow::Cow::<'a, B>::to_mut](c: &'b mut std::borrow::Cow<'a, B>) -> (r: &'b mut <B as std::borrow::ToOwned>::Owned)
     ensures
-        *r == cv(*old(c)),
-        *final(c) == std::borrow::Cow::<T>::Owned(*final(r)),
-{
-    c.to_mut()
-}
+        *r == cow_owned_spec(*old(c)),
+        *final(c) == std::borrow::Cow::<B>::Owned(*final(r));
+pub broadcast axiom fn axiom_cow_owned_clone<'a, T: Clone>(c: std::borrow::Cow<'a, T>)
+    ensures #[trigger] cow_owned_spec(c) == cv(c);
+
+// a function that dereferences or `to_mut`s a `Cow` starts with `broadcast use group_cow;`
+pub broadcast group group_cow { axiom_cow_deref_clone, axiom_cow_owned_clone }
